@@ -77,6 +77,9 @@ def run_family(res, fam, scale, seed, budget):
 
 def explore(res, scale=1, seed=None):
     seed = res.seed if seed is None else seed
+    # blocks larger than 1 MiB in every compression mode, read back with the library's server-side decoders (direct oracle)
+    from lib import colfam
+    colfam.run_direct(res, "c02big", 10 * scale, seed, builds=("default",))
     # the streamed-input half of the property ("then the input blocks in order followed by an empty terminator"):
     # the wire of OnInput-driven inserts with reused column memory, parsed by the reference parser, must carry the
     # caller's blocks in order - the C09 family run here with a small budget (oracle texts are about the wire)
